@@ -50,28 +50,25 @@ class C17(PropCheck):
         fills = lambda s, c: c in (plat["SI_USER"], plat["SI_TKILL"], plat["SI_QUEUE"], plat["SI_MESGQ"]) or (
             s == plat["SIGCHLD"] and c in [plat[k] for k in ("CLD_EXITED", "CLD_KILLED", "CLD_DUMPED", "CLD_TRAPPED", "CLD_STOPPED", "CLD_CONTINUED")])
         nviol = 0
-        for o, m in zip(ops, model):
+        for o, mline in zip(ops, model):
             i = impl_by.get(o, "<missing>")
             got = i.split(" | ")[1] if " | " in i else i
+            m, spec = mline.split(" | spec ")
             f = dict(x.split("=") for x in got.split()) if "=" in got else {}
             dist["cause:" + f.get("cause", "?")] = dist.get("cause:" + f.get("cause", "?"), 0) + 1
             w = o.split(); s, c, p, u = int(w[1]), int(w[2]), int(w[3]), int(w[4])
-            # monitor = the property itself, evaluated on the implementation's answer
-            want_proc = "%d:%d" % (p, u) if fills(s, c) else "none"
-            bad = f.get("sig") != str(s) or f.get("proc") != want_proc
-            if bad:
+            # monitor = the property itself (Lean `specOrigin`), evaluated on the implementation's answer
+            if got != spec:
                 nviol += 1
                 if nviol <= 5:
                     failures.append({"kind": "violation", "key": "C17:ex:%d:%d" % (s, c),
-                                     "what": "Origin::extract on si_signo=%d si_code=%d si_pid=%d si_uid=%d reports `%s`; the kernel %s a process for this code, expected sig=%d proc=%s" % (s, c, p, u, got, "supplies" if fills(s, c) else "does not supply", s, want_proc),
-                                     "payload": {"ops": [o], "impl": [i], "model": [m]}})
+                                     "what": "Origin::extract on si_signo=%d si_code=%d si_pid=%d si_uid=%d reports `%s`; the kernel's facts / intended classification are `%s`" % (s, c, p, u, got, spec),
+                                     "payload": {"ops": [o], "impl": [i], "model": [m], "spec": spec}})
             elif got != m:
                 nviol += 1
                 if nviol <= 5:
-                    # cause class differs from the model: the model's classification is proved equal to the
-                    # intended one (C17_cause_correct), so this is a wrong cause on the implementation
-                    failures.append({"kind": "violation", "key": "C17:ex:%d:%d" % (s, c),
-                                     "what": "Origin::extract on si_signo=%d si_code=%d: implementation `%s` vs intended classification `%s`" % (s, c, got, m),
+                    failures.append({"kind": "disagreement", "key": "C17:exdiff:%d:%d" % (s, c),
+                                     "what": "Origin::extract on si_signo=%d si_code=%d: implementation `%s` (meets the spec) vs model `%s`" % (s, c, got, m),
                                      "payload": {"ops": [o], "impl": [i], "model": [m]}})
         # real deliveries
         reps = 2 if tier == "quick" else 10
@@ -88,15 +85,15 @@ class C17(PropCheck):
             facts = dict(x.split("=") for x in parts[2].split())
             mech = facts["mech"]
             dist["real:" + mech] = dist.get("real:" + mech, 0) + 1
-            m = core.run_driver("origin", "ex %d %d %d %d\n" % tuple(raw))[0]
+            m, spec = core.run_driver("origin", "ex %d %d %d %d\n" % tuple(raw))[0].split(" | spec ")
             signame, codename, who = EXPECT[mech]
             want_pid = {"me": facts["me"], "child": facts["child"], None: None}[who]
             # environment validation: the kernel delivered what the mechanism should produce
             if raw[0] != plat[signame] or raw[1] != plat[codename] or (who and str(raw[2]) != want_pid):
                 failures.append({"kind": "disagreement", "key": "C17:env:" + mech, "what": "environment: mechanism %s produced raw siginfo %s, expected %s/%s pid=%s" % (mech, raw, signame, codename, want_pid)})
                 continue
-            want = "sig=%d cause=%s proc=%s" % (raw[0], m.split("cause=")[1].split()[0], ("%s:%s" % (want_pid, facts["uid"])) if who else "none")
-            if parts[1] != want or parts[1] != m:
+            want = "sig=%d cause=%s proc=%s" % (raw[0], spec.split("cause=")[1].split()[0], ("%s:%s" % (want_pid, facts["uid"])) if who else "none")
+            if parts[1] != want or parts[1] != spec:
                 failures.append({"kind": "violation", "key": "C17:real:" + mech,
                                  "what": "real delivery via %s: origin exfiltrator reported `%s`, kernel facts are `%s` (model: `%s`)" % (mech, parts[1], want, m),
                                  "payload": {"ops": [o], "impl": [l], "model": [m]}})
@@ -120,7 +117,7 @@ class C17(PropCheck):
         if ops and ops[0].startswith("ex"):
             model = core.run_driver("origin", "\n".join(ops) + "\n")
             for o, i, m in zip(ops, impl, model):
-                if i.split(" | ")[1] != m:
+                if i.split(" | ")[1] != m.split(" | spec ")[1]:
                     bad = True
                 lines.append("   model: " + m)
         else:
